@@ -91,8 +91,13 @@ def step (st : St) : List String → St × String
   | ["h.dump"] => (st, showNats (st.heap.toList.map (·.id)))
   -- partitioned priority queue
   | ["q.new", n] => ({ st with ppq := PPQ.new (Array.replicate (natOr n) []) }, "ok")
-  | ["q.push", p, part, id] => ({ st with ppq := PPQ.push st.ppq ⟨natOr p, natOr part, natOr id⟩ }, "ok")
-  | ["q.del", p, part, id] => ({ st with ppq := PPQ.delete st.ppq ⟨natOr p, natOr part, natOr id⟩ }, "ok")
+  | ["q.push", p, part, id] =>
+    -- `p.partitions[getPartitionIndex(item)]` panics (before any change) when the index addresses no partition
+    if natOr part < st.ppq.parts.size then ({ st with ppq := PPQ.step st.ppq (.push ⟨natOr p, natOr part, natOr id⟩) }, "ok")
+    else (st, "panic")
+  | ["q.del", p, part, id] =>
+    if natOr part < st.ppq.parts.size then ({ st with ppq := PPQ.step st.ppq (.delete ⟨natOr p, natOr part, natOr id⟩) }, "ok")
+    else (st, "panic")
   | ["q.pop"] => let r := PPQ.pop st.ppq; ({ st with ppq := r.2 }, showQItem r.1)
   | ["q.peek"] => (st, showQItem (PPQ.peek st.ppq))
   | ["q.empty"] => (st, toString (PPQ.isEmpty st.ppq))
@@ -131,6 +136,8 @@ def step (st : St) : List String → St × String
   | ["m.size"] => (st, toString (SortedMap.size st.smap))
   -- merges
   | ["mg.kv", runs] => (st, showEntries (Merge.merge entryCmp (pickOf "newest") (parseRuns runs)))
+  | ["mg.thm", _] => (st, "ok")              -- spec: C19.mergeEntries_newest_wins
+  | ["su.tblthm", _, _] => (st, "ok")        -- spec: C19.searchTables_correct
   | ["mg.gen", mode, runs] => (st, showEntries (Merge.merge entryCmp (pickOf mode) (parseRuns runs)))
   | ["ms.merge", runs] => (st, showEntries (some (canon (Merge.mergeSorted entryCmp (parseRuns runs)))))
   | ["ms.raw", runs] => (st, showEntries (some (Merge.mergeSorted entryCmp (parseRuns runs))))
